@@ -166,6 +166,32 @@ ext_sender!(sender_o0_o2_o4, 10, [O(0), O(2), O(4)]);
 ext_sender!(sender_m3_o8_m0, 10, [M(3), O(8), M(0)]);
 ext_sender!(sender_o2_o4_o6_o8, 10, [O(2), O(4), O(6), O(8)]);
 ext_sender!(sender_m0_o0_m3_m2, 10, [M(0), O(0), M(3), M(2)]);
+// every optional class also in NON-last position (the chain writer has separate code for
+// the last entry and for the others)
+ext_sender!(sender_o8_o0, 10, [O(8), O(0)]);
+ext_sender!(sender_o6_o4, 10, [O(6), O(4)]);
+
+/// The two bundled managers: the simple one knows nothing; the signalisation one knows
+/// exactly NCR (0x0081) and internal signalling (0x0082) — EN 301 545-2 section 5.1 — as
+/// final extensions without data.  All 65536 ids.
+#[kani::proof]
+pub fn bundled_managers() {
+    use dvb_gse_rust::header_extension::{
+        MandatoryHeaderExt, MandatoryHeaderExtensionManager, SignalisationMandatoryExtensionHeaderManager,
+        SimpleMandatoryExtensionHeaderManager,
+    };
+    let id: u16 = kani::any();
+    let simple = SimpleMandatoryExtensionHeaderManager {}.is_mandatory_header_id_known(id);
+    assert!(simple == MandatoryHeaderExt::Unknown, "C13.simple_manager_knows_nothing");
+    let sig = SignalisationMandatoryExtensionHeaderManager {}.is_mandatory_header_id_known(id);
+    if id == 0x0081 || id == 0x0082 {
+        assert!(sig == MandatoryHeaderExt::Final(0), "C13.signalisation_manager_knows_ncr_and_internal_signalling");
+    } else {
+        assert!(sig == MandatoryHeaderExt::Unknown, "C13.signalisation_manager_knows_nothing_else");
+    }
+    kani::cover!(id == 0x0081, "ncr");
+    kani::cover!(id == 0x0082, "internal_signalling");
+}
 
 /// encap_ext with an empty list is an error that changes nothing.
 #[kani::proof]
@@ -400,6 +426,7 @@ ext_receiver!(rx_complete_bc_o2, 24, crate::dmodels::hdr_complete_bc, false, LT:
 ext_receiver!(rx_complete_6b_o0, 24, crate::dmodels::hdr_complete_6b, false, LT::Six, false, None, [O(0)]);
 ext_receiver!(rx_complete_3b_m3, 24, crate::dmodels::hdr_complete_3b, false, LT::Three, false, None, [M(3)]);
 ext_receiver!(rx_complete_ru_o4_o6, 24, crate::dmodels::hdr_complete_ru, false, LT::ReUse, false, None, [O(4), O(6)]);
+ext_receiver!(rx_complete_bc_o8, 24, crate::dmodels::hdr_complete_bc, false, LT::Broadcast, false, None, [O(8)]);
 ext_receiver!(rx_complete_bc_o2_mfinal, 24, crate::dmodels::hdr_complete_bc, false, LT::Broadcast, true, None, [O(2), M(0)]);
 ext_receiver!(rx_complete_bc_mfinal2, 24, crate::dmodels::hdr_complete_bc, false, LT::Broadcast, true, None, [M(2)]);
 ext_receiver!(rx_complete_bc_m3_o8_m0, 24, crate::dmodels::hdr_complete_bc, false, LT::Broadcast, false, None, [M(3), O(8), M(0)]);
